@@ -35,6 +35,22 @@ Definition out_pool : list go_Output :=
     mk_go_Output 72623859790382856 (Some [x51]) ].
 Definition lists_of {A} (pool : list A) : list (list A) :=
   [] :: map (fun a => [a]) pool ++ flat_map (fun a => map (fun b => [a; b]) pool) pool.
+Definition lists3_of {A} (pool : list A) : list (list A) :=
+  lists_of pool ++ flat_map (fun a => flat_map (fun b => map (fun c => [a; b; c]) pool) pool) pool.
+(** cross products for the one-object functions: every amount / index / sequence at its byte boundaries (each byte distinct,
+    so that a byte order or a width slip shows), scripts at the compact-size boundaries *)
+Definition sats_pool : list Z := [0; 1; 255; 256; 65535; 65536; 4294967295; 4294967296; 72623859790382856; 578437695752307201;
+  9223372036854775807; 9223372036854775808; 18446744073709551615; 1099511627776; 16909060; 281474976710656].
+Definition script_pool : list (option bytes) :=
+  [Some []; Some [x6a]; Some [x00; x6a; x01]; Some [x76; xa9; x14]; Some (repeat x51 75); Some (repeat x52 76); Some (repeat x53 252);
+   Some (x6a :: repeat x51 252); Some (repeat x54 254); Some (repeat x55 255); Some (repeat x56 256); Some (repeat x57 300);
+   Some (repeat x58 65535); Some (repeat x59 65536)].
+Definition out_cross : list go_Output := flat_map (fun v => map (fun sc => mk_go_Output v sc) script_pool) sats_pool.
+Definition u32_pool : list Z := [0; 1; 255; 256; 65535; 65536; 16909060; 67305985; 4294967294; 4294967295].
+Definition in_cross : list go_Input :=
+  flat_map (fun id => flat_map (fun vout => flat_map (fun us => map (fun sq => mk_go_Input id 0 None us vout sq) [0; 16909060; 4294967295])
+     [None; Some []; Some [x51]; Some (repeat x52 252); Some (repeat x53 253); Some (repeat x54 65536)]) u32_pool)
+     [repeat_byte 32 x11; x01 :: repeat_byte 31 x00; (x01 :: x02 :: x03 :: x04 :: repeat_byte 27 xab) ++ [xff]].
 Record cand := mkCand { c_ins : list go_Input; c_outs : list go_Output; c_ver : Z; c_lock : Z }.
 Definition txs : list cand :=
   flat_map (fun i => flat_map (fun o => [mkCand i o 1 0; mkCand i o 4294967295 4009754624]) (lists_of out_pool)) (lists_of in_pool).
